@@ -997,9 +997,12 @@ class PendingFunctionDef(_PendingCompoundStmt[FunctionDef]):
                 keywords=[],
             )
 
-        if self.internal_nsp.is_method and self.node.name == "__init_subclass__":
-            # We need to add a @classmethod for __init_subclass__
-            # that's really weird, but really solves problem
+        if self.internal_nsp.is_method and self.node.name in (
+            "__init_subclass__",
+            "__class_getitem__",
+        ):
+            # these two are class methods without a decorator,
+            # the class statement does that while it creates the class
             body_expr = Call(
                 func=Name(id="classmethod", ctx=Load()),
                 args=[body_expr],
